@@ -189,7 +189,11 @@ func runStandard(t *testing.T, p *Prop, sc *world.Scenario, out *Outcome) {
 	}
 	if !sc.SkipVerify() {
 		if err := w.KV.VerifyInner(true); err != nil {
-			out.Infra = "ground truth / engine mismatch: " + err.Error()
+			// The seam logs every engine call with the engine's own answer. If the store ends up different from
+			// what those answers add up to, an engine applied a batch it reported as failed (or the reverse):
+			// whatever the node told its clients on that basis is wrong.
+			out.violate(p.ID, "store-contradicts-engine-answers", "store-contradicts-engine-answers",
+				"the store's final content differs from what the engine's own answers add up to: %s", err.Error())
 		}
 	}
 }
